@@ -153,9 +153,49 @@ class MultiLink(Link):
     """n-ended link; may list one vertex several times."""
 
 
+class DuckLink(Link):
+    """
+    A user-defined two-ended link built directly on Link (not on TwoEndedLink): it offers v1, v2 and other(),
+    which is all neighbors() / find_links() ask of a link class they do not know.
+    """
+
+    def __init__(self, v1=None, v2=None, *, uid=None, attributes=None):
+        super().__init__(vertices=[v1, v2], uid=uid, attributes=attributes)
+
+    @property
+    def v1(self):
+        return self.vertices[0]
+
+    @property
+    def v2(self):
+        return self.vertices[1]
+
+    def other(self, end):
+        a, b = self.vertices[0], self.vertices[1]
+        if end is a:
+            return b
+        if end is b:
+            return a
+        return None
+
+
+# Distinct classes that share their __name__ with another class (ui.Node / model.Node; an application's own
+# `class Vertex(edgegraph.structure.Vertex)`).  Never pickled by reference, so kept out of the C05/C10 families.
+OtherLinkNamesake = type("OtherLink", (TwoEndedLink,), {"__doc__": "unknown link class #2 called OtherLink"})
+VertexNamesake = type("Vertex", (Vertex,), {"__doc__": "an application's own class called Vertex"})
+VSubNamesake = type("VSub", (VFancy,), {"__doc__": "a second class called VSub, configured through VFancy"})
+
+
+class VCallable(Vertex):
+    """Instances are callable (a task / handler vertex)."""
+
+    def __call__(self, *a, **k):
+        return getattr(self, "idx", None)
+
+
 VERTEX_CLASSES = {
     c.__name__: c
-    for c in (Vertex, VSub, VSubSub, FalsyVertex, EmptyVertex, Universe, VPlain, VFancy, VBoth, EqVertex, StrVertex, VSlots)
+    for c in (Vertex, VSub, VSubSub, FalsyVertex, EmptyVertex, Universe, VPlain, VFancy, VBoth, EqVertex, StrVertex, VSlots, VCallable)
 }
 EDGE_CLASSES = {
     c.__name__: c
@@ -174,6 +214,9 @@ EDGE_CLASSES = {
         TwoEndedLink,
     )
 }
+# classes for graph-spec based checks only (not part of the history driver's op language)
+SPEC_ONLY_EDGE_CLASSES = {"DuckLink": DuckLink, "OtherLink~": OtherLinkNamesake}
+SPEC_ONLY_VERTEX_CLASSES = {"Vertex~": VertexNamesake, "VSub~": VSubNamesake}
 LINK_CLASSES = dict(EDGE_CLASSES)
 LINK_CLASSES["MultiLink"] = MultiLink
 ALL_CLASSES = {}
@@ -184,7 +227,7 @@ ALL_CLASSES["FalsyUniverse"] = FalsyUniverse
 
 DIRECTED_NAMES = ("DirectedEdge", "DSub", "DSubSub", "MixEdge", "FalsyEdge", "RenamedEdge")
 UNDIRECTED_NAMES = ("UnDirectedEdge", "USub", "PosOnlyEdge")
-OTHER_NAMES = ("OtherLink", "OtherLink2", "TwoEndedLink")
+OTHER_NAMES = ("OtherLink", "OtherLink2", "TwoEndedLink", "DuckLink", "OtherLink~")
 
 
 def kind_of(link) -> str:
